@@ -331,6 +331,31 @@ def r13_2_generic_kinds(ctx):
                                                   for c in [n.left] + n.comparators) \
                     and fi.name not in ('is_generic_sequence', 'is_generic_mapping', 'has_attribute_type') and fi.module.name != 'yatiml.helpers':
                 readers.append((fi, n))
+    # a reader that compares the origin with whole kinds only (all of list/Sequence/MutableSequence, all of dict/Mapping/
+    # MutableMapping, or none of them) cannot tell the variants of one kind apart either
+    SEQ, MAP = {'list', 'Sequence', 'MutableSequence'}, {'dict', 'Mapping', 'MutableMapping'}
+
+    def whole_kinds(fi) -> bool:
+        f_ = fn_of(fi)
+        sets = []
+        for n in f_.walk():
+            if isinstance(n, ast.Compare) and len(n.ops) == 1:
+                sides = [n.left, n.comparators[0]]
+
+                def is_origin(x):
+                    return '__origin__' in f_.alpha.text(x) or (isinstance(x, ast.Name) and any(
+                        '__origin__' in norm(v) for v in assigned_from(f_, x.id)))
+                if not any(is_origin(x) for x in sides):
+                    continue
+                other = sides[1] if is_origin(sides[0]) else sides[0]
+                els = other.elts if isinstance(other, (ast.Tuple, ast.List, ast.Set)) else [other]
+                if not isinstance(n.ops[0], (ast.Is, ast.IsNot, ast.Eq, ast.NotEq, ast.In, ast.NotIn)):
+                    return False
+                sets.append({(dotted_name(x) or norm(x)).split('.')[-1] for x in els})
+        if not sets:
+            return False
+        return all((s_ & SEQ in (set(), SEQ)) and (s_ & MAP in (set(), MAP)) for s_ in sets)
+    readers = [(fi, n) for fi, n in readers if not whole_kinds(fi)]
     r.check(not readers, 'no other function inspects __origin__ or compares a type with a typing alias', 'yatiml:origin-readers',
             readers[0][0].loc(readers[0][1]) if readers else 'yatiml/', '%s distinguishes generic container kinds itself (%s): List, Sequence '
             'and MutableSequence may be treated differently' % (readers[0][0].qual if readers else '', norm(readers[0][1])[:60] if readers else ''))
